@@ -3,8 +3,9 @@ from __future__ import annotations
 from classify_checks import *
 
 PID = "C09"
-THEOREMS = CLOSURE_THEOREMS + ["PauLie.C09.C09_name_dim", "PauLie.C09.mergeSummands_dim", "PauLie.Tie.census_tie"]
-IMPORTS = CLOSURE_IMPORTS + ["PauLieVerif.Properties.C09", "PauLieVerif.Proofs.TieCensus"]
+THEOREMS = CLOSURE_THEOREMS + ["PauLie.C09.C09_name_dim", "PauLie.C09.mergeSummands_dim", "PauLie.Tie.census_tie",
+    "PauLie.C01Comp.C01Comp_subgraphs", "PauLie.C01Comp.C01_componentwise", "PauLie.C01Comp.C01_componentwise_typeA"]
+IMPORTS = CLOSURE_IMPORTS + ["PauLieVerif.Properties.C09", "PauLieVerif.Proofs.TieCensus", "PauLieVerif.Properties.C01Comp"]
 
 def batch_oracle(lines, outs):
     colls = [inputs_of(l) for l in lines]
